@@ -506,18 +506,18 @@ impl Checkout {
                 );
 
                 ptr::copy(
-                    self.inner.extra()[start + length..self.inner.end].as_ptr(),
+                    self.inner.extra()[begin + length..self.inner.end].as_ptr(),
                     self.inner.extra_mut()[slice_end..].as_mut_ptr(),
-                    self.inner.end - (start + length),
+                    self.inner.end - (begin + length),
                 );
                 self.inner.end -= length - data_len;
 
             // we put more data in the buffer
             } else {
                 ptr::copy(
-                    self.inner.extra()[start + length..self.inner.end].as_ptr(),
-                    self.inner.extra_mut()[start + data_len..].as_mut_ptr(),
-                    self.inner.end - (start + length),
+                    self.inner.extra()[begin + length..self.inner.end].as_ptr(),
+                    self.inner.extra_mut()[slice_end..].as_mut_ptr(),
+                    self.inner.end - (begin + length),
                 );
                 ptr::copy(
                     data.as_ptr(),
@@ -573,9 +573,9 @@ impl Checkout {
             let begin = self.inner.position + start;
             let slice_end = begin + data_len;
             ptr::copy(
-                self.inner.extra()[start..self.inner.end].as_ptr(),
-                self.inner.extra_mut()[start + data_len..].as_mut_ptr(),
-                self.inner.end - start,
+                self.inner.extra()[begin..self.inner.end].as_ptr(),
+                self.inner.extra_mut()[slice_end..].as_mut_ptr(),
+                self.inner.end - begin,
             );
             ptr::copy(
                 data.as_ptr(),
@@ -1039,6 +1039,29 @@ mod tests {
         let result = buf.replace_slice(b"VWXYZ", 0, 1);
         assert!(result.is_none());
         assert_eq!(buf.data(), b"abcdefgh");
+    }
+
+    #[test]
+    fn test_slice_edits_after_consume() {
+        let mut pool = create_test_pool(16, 2);
+
+        // the read position is 3: offsets are relative to it
+        let mut buf = checkout_with_data(&mut pool, b"abcdefgh");
+        buf.consume(3);
+        assert_eq!(buf.insert_slice(b"X", 2), Some(6));
+        assert_eq!(buf.data(), b"deXfgh");
+
+        buf.reset();
+        buf.write_all(b"abcdefgh").unwrap();
+        buf.consume(3);
+        assert_eq!(buf.replace_slice(b"XY", 2, 1), Some(6));
+        assert_eq!(buf.data(), b"deXYgh");
+
+        buf.reset();
+        buf.write_all(b"abcdefgh").unwrap();
+        buf.consume(3);
+        assert_eq!(buf.replace_slice(b"", 1, 2), Some(3));
+        assert_eq!(buf.data(), b"dgh");
     }
 
     #[test]
